@@ -26,6 +26,19 @@ PortAccepted(p) == p >= 0 /\ p <= 65535
 \* strict mode rejects unknown fields at every nesting level; non-strict mode ignores them
 StrictRejects(strict) == strict
 
+\* number-range literals ("6000-6002,8080,7000-7001": template helpers parseNumberRange / parseNumberRangePair, allowPorts):
+\* the segments expand in the order written, nothing is sorted or merged; a pair list couples the two expansions by
+\* position and exists only when they are equally long
+RECURSIVE ExpandSegs(_)
+ExpandSegs(segs) == IF segs = <<>> THEN <<>>
+                    ELSE [i \in 1..(Head(segs)[2] - Head(segs)[1] + 1) |-> Head(segs)[1] + i - 1] \o ExpandSegs(Tail(segs))
+RangePairs(a, b) == [i \in 1..Len(a) |-> <<a[i], b[i]>>]
+RangePairOutcome(sa, sb) == LET a == ExpandSegs(sa)  b == ExpandSegs(sb) IN
+                            IF Len(a) = Len(b) THEN [err |-> FALSE, pairs |-> RangePairs(a, b)] ELSE [err |-> TRUE, pairs |-> <<>>]
+ASSUME ExpandSegs(<<<<8080, 8080>>, <<6000, 6001>>>>) = <<8080, 6000, 6001>>
+ASSUME RangePairOutcome(<<<<8080, 8080>>, <<6000, 6001>>>>, <<<<7000, 7002>>>>).pairs = <<<<8080, 7000>>, <<6000, 7001>>, <<6001, 7002>>>>
+ASSUME RangePairOutcome(<<<<1, 2>>>>, <<<<5, 5>>>>).err
+
 VARIABLE t
 Init == t \in Types
 Next == t' \in Types
